@@ -15,7 +15,7 @@ import random
 from fractions import Fraction
 
 from harness import core
-from harness.core import qlit, zlit, listlit, boollit, strlit
+from harness.core import zlit, listlit, boollit, strlit
 from translate import tolerance as tr_tolerance
 
 ID = 'C04'
@@ -382,6 +382,13 @@ class Capture:
 # ================================================================================================
 # Coq terms
 # ================================================================================================
+def qlit(x):
+    """exact rational literal (hexadecimal numerals: several times faster for coqc to read than decimal ones)"""
+    fr = Fraction(x)
+    n = '(-0x%x)' % -fr.numerator if fr.numerator < 0 else '0x%x' % fr.numerator
+    return '(Qmake %s 0x%x)' % (n, fr.denominator)
+
+
 def value_term(v):
     """Python / numpy value -> Coq `value` term, or None if it contains NaN (outside the model)"""
     import numpy as np
@@ -969,7 +976,7 @@ def run_graders(ctx, res, rng):
                             'samples': c['n'], 'failable_evals': c['failable'], 'handed_out': repr(o['handed_out'])[:300],
                             'result': repr(o['result'])})
     n, failing, errors = core.eval_agreement('c04_grader', HEADER + AGREE_DEFS, 'grader_case', terms,
-                                             shard=max(40, -(-len(terms) // 14)))
+                                             shard=max(40, -(-len(terms) // 15)), case_type='gcase')
     res.programs += n
     res.corr_errors += errors
     for i in failing:
